@@ -516,6 +516,38 @@ func (p *pparser) pipe() stream.Stream[pv] {
 		return stream.FlatMap(p.pipe(), func(v pv) stream.Stream[pv] { return stream.Just(v, pv{I: v.key() + 100}) })
 	case "peek":
 		return p.pipe().Peek(func(pv) {})
+	case "fromiterp":
+		// FromIterator over a sequence function that holds a resource while it runs: acquired when the iteration starts,
+		// released by its deferred cleanup (which runs when the sequence ends or when iter.Pull's stop is called)
+		r := p.int()
+		xs, err := parseInts(p.next())
+		if err != nil && p.err == nil {
+			p.err = err
+		}
+		return stream.Map(stream.FromIterator(func(yield func(int64) bool) {
+			w.ev(r, 'O')
+			defer w.ev(r, 'C')
+			for _, x := range xs {
+				if !yield(x) {
+					return
+				}
+			}
+		}), func(x int64) pv { return pv{I: x} })
+	case "jsonbad":
+		// JSON array whose 3rd element has the wrong type / that is truncated: Emit fails after a successful Open
+		r := p.int()
+		doc := "[1,2,\"x\",4]"
+		if p.int() == 1 {
+			doc = "[1,2,{\"a\":"
+		}
+		return stream.Map(jsonstream.ReadJsonArray[int64](func(ctx context.Context) (io.ReadCloser, error) {
+			if err := w.call(); err != nil {
+				w.ev(r, 'o')
+				return nil, err
+			}
+			w.ev(r, 'O')
+			return &probeReadCloser{Reader: strings.NewReader(doc), w: w, r: r}, nil
+		}), func(x int64) pv { return pv{I: x} })
 	case "fromiter":
 		xs, err := parseInts(p.next())
 		if err != nil && p.err == nil {
